@@ -257,6 +257,17 @@ pub fn run() -> i32 {
             for (c, rt) in [("json", json_rt(&sess)), ("bincode", bin_rt(&sess))] {
                 v.push((format!("Session/{}", c), rt.as_ref().map(|x| x.rx_as_slice() == sess.rx_as_slice() && x.tx_as_slice() == sess.tx_as_slice()).unwrap_or(false)));
             }
+            // every byte view of a session names the same two keys (and the right one of the two)
+            {
+                let want = crate::sodium::kx_client(kp.public_key.as_array(), kp.secret_key.as_array(), kp2.public_key.as_array());
+                let views = sess.rx_as_array()[..] == *sess.rx_as_slice() && sess.tx_as_array()[..] == *sess.tx_as_slice() && Some((*sess.rx_as_array(), *sess.tx_as_array())) == want && sess.rx_as_slice() != sess.tx_as_slice();
+                let (prx, ptx) = sess.clone().into_parts();
+                let parts = Some((*prx.as_array(), *ptx.as_array())) == want;
+                let sess_v: Session<Vec<u8>> = Session::new_client(&kp, &kp2.public_key).unwrap();
+                let (vrx, vtx) = sess_v.clone().into_parts();
+                let vec_views = sess_v.rx_as_slice() == sess.rx_as_slice() && sess_v.tx_as_slice() == sess.tx_as_slice() && vrx == sess.rx_as_slice() && vtx == sess.tx_as_slice();
+                v.push(("Session/views-agree".into(), views && parts && vec_views));
+            }
             // kdf
             let kdf: Kdf<SB<32>, SB<8>> = Kdf::from_parts(s.into(), karr::<8>(seed, ki).into());
             for (c, rt) in [("json", json_rt(&kdf)), ("bincode", bin_rt(&kdf))] {
